@@ -14,6 +14,7 @@ pub mod c12;
 pub mod c13;
 pub mod c17;
 pub mod c18;
+pub mod c20;
 
 pub fn threads() -> usize {
     std::env::var("VERIF_THREADS")
@@ -43,6 +44,7 @@ pub fn plan(property: &str, tier: &str) -> Option<Plan> {
         "C13" => Some(c13::plan(quick)),
         "C17" => Some(c17::plan(quick)),
         "C18" => Some(c18::plan(quick)),
+        "C20" => Some(c20::plan(quick)),
         "C01" | "C07" | "C08" | "C09" | "C10" | "C15" | "C16" => Some(chat::plan(property, quick)),
         _ => None,
     }
@@ -73,6 +75,7 @@ pub fn replay_fun(property: &str, scenario: &str, input: &serde_json::Value) -> 
         "C14" => c14::replay_fun(scenario, input),
         "C13" => c13::replay_fun(scenario, input),
         "C18" => c18::replay_fun(input),
+        "C20" => c20::replay_fun(scenario, input),
         "C07" | "C08" | "C16" => chat::replay_fun(property, scenario, input),
         _ => vec![],
     }
